@@ -167,7 +167,44 @@ def data_table(t, g, tb):
     return dt
 
 
+RICH = {"group": "nested", "titleWords": 6, "abstract": "text21", "keywords": [5, 2], "coverage": True, "rights": True, "methods": True, "project": True, "source": "absent",
+        "table": {"present": True, "desc": True, "size": True, "auth": True, "nrec": True, "delim": True, "attrMethods": "none"}, "other": "with-description",
+        "party": {"el": "creator", "userId": "orcid", "email": True, "given": True}}
+BARE = {"group": "nested", "titleWords": 1, "abstract": "absent", "keywords": [], "coverage": False, "rights": False, "methods": False, "project": False, "source": "absent",
+        "table": {"present": False, "desc": False, "size": False, "auth": False, "nrec": False, "delim": False, "attrMethods": "none"}, "other": "absent",
+        "party": {"el": "creator", "userId": "none", "email": False, "given": False}}
+
+
+def nest_source(t, d, kind, seed):
+    """Put a dataSource built like a complete (rich) or minimal (bare) dataset into the dataset's own methods, or,
+    when it has none, into the methods of its first data table."""
+    src = build(RICH if kind == "rich" else BARE, t, seed + 7)
+    src.name = "dataSource"
+    host = d.find_child("methods")
+    if host is not None:
+        host.find_child("methodStep").add_child(src)
+        return True
+    dt = d.find_child("dataTable")
+    if dt is None:
+        return False
+    m = Node("methods")
+    ms = Node("methodStep")
+    ds = Node("description")
+    ds.add_child(Node("para", content="how the table was made"))
+    ms.add_child(ds)
+    ms.add_child(src)
+    m.add_child(ms)
+    return insert_valid(t, dt, m)
+
+
 def build(profile, t, seed):
+    d = build_dataset(profile, t, seed)
+    if profile.get("source", "absent") != "absent":
+        nest_source(t, d, profile["source"], seed)
+    return d
+
+
+def build_dataset(profile, t, seed):
     g = tables.TreeGen(t, seed, max_depth=3, breadth=1)
     d = Node("dataset")
     d.add_child(Node("title", content=words(profile["titleWords"])))
